@@ -230,6 +230,7 @@ type schedState struct {
 	wg       sync.WaitGroup
 	once     map[*Value]*onceState
 	pools    map[*Value][]Value // sync.Pool free lists
+	smaps    map[*Value]*MapObj // sync.Map contents
 	wgs      map[*Value]*wgState
 	mus      map[*Value]*muState
 	sleep    map[transID]bool
@@ -237,7 +238,7 @@ type schedState struct {
 }
 
 func (e *Exec) initSched() {
-	e.ss = &schedState{finished: make(chan interface{}, 64), once: map[*Value]*onceState{}, pools: map[*Value][]Value{}, sleep: map[transID]bool{}, race: newRaceState()}
+	e.ss = &schedState{finished: make(chan interface{}, 64), once: map[*Value]*onceState{}, pools: map[*Value][]Value{}, smaps: map[*Value]*MapObj{}, sleep: map[transID]bool{}, race: newRaceState()}
 }
 
 // runThreads runs body as thread 0 and returns what ended the path:
